@@ -600,6 +600,9 @@ class ChemicalIndexer(Indexer):
     
     def copy_like(self, other):
         if self is other: return
+        if isinstance(other, MaterialIndexer): # Multi-phase data holding one phase
+            phase, = other._phases
+            other = other.get_phase(phase)
         if self.chemicals is other.chemicals:
             self.data.copy_like(other.data)
         else:
